@@ -44,6 +44,7 @@ int LLVMFuzzerTestOneInput(const uint8_t *data, size_t size)
   if (((sel >> 4) & 3) == 2) env_put2("DATABYTES", "64"); else if (((sel >> 4) & 3) == 3) env_put2("DATABYTES", "100000"); else env_unset("DATABYTES");
   fz_qq_result = ((sel >> 6) & 3) == 2 ? "Dperm (stub)" : ((sel >> 6) & 3) == 3 ? "Ztemp (stub)" : "";
   ssin.p = 0; ssin.n = sizeof ssinbuf; ssout.p = 0; databytes = 0; bytestooverflow = 0;
+  FZ_FRESH(failure);
   if (!setjmp(fz_jb)) nqv_qmtpd_main(); else exited = 1;
   fz_outcome(exited, allowed, 0);
   fz_fd_sweep();
